@@ -560,29 +560,20 @@ Proof.
   - intros k a am mf md Hpc. rewrite (T4 _ _ _ _ _ Hpc). lia.
 Qed.
 
-Lemma NInv_htlc c s h : InvU s -> InvC c s -> InvO s -> NInv s -> NInv (fst (step c s (EvHtlc h))).
+Lemma NInv_htlc c s h : InvC c s -> NInv s -> NInv (fst (step c s (EvHtlc h))).
+Proof.
+  intros HC HN. cbn [step].
+  destruct (entry_ (pl s)) as [e|] eqn:He.
+  - apply (NInv_irrel s); auto.
+  - exact (NInv_spawn c s h (e_handle c (new_entry h) h) HC HN).
+Qed.
+
+Lemma NInv_pollev c s sel : InvU s -> InvC c s -> InvO s -> NInv s -> NInv (fst (step c s (EvPoll sel))).
 Proof.
   intros HU HC HO HN. cbn [step].
-  destruct (entry_ (pl s)) as [e|] eqn:He.
-  - set (s1 := {| nd := nd s; pl := {| entry_ := Some (e_handle c e h); lcs := lcs (pl s); next_att := next_att (pl s) |}; calls := calls s; now := now s; height := height s |}).
-    assert (HN1 : NInv s1) by (apply (NInv_irrel s); auto).
-    assert (HC1 : InvC c s1) by (apply (InvC_irrel c s); auto).
-    assert (HO1 : InvO s1) by (apply (InvO_irrel s); auto).
-    assert (HU1 : InvU s1) by (unfold InvU in *; cbn; rewrite He in HU; exact HU).
-    destruct (find_select 0 (lcs (pl s))) as [[[i d] li]|] eqn:Hf; [|exact HN1].
-    destruct (find_select_spec _ _ _ _ _ Hf) as (x & Hx & Hp & Hli & _). rewrite Nat.sub_0_r in Hx. subst li.
-    pose proof (NInv_poll c s1 i x d (Some (e_handle c e h)) true (next_att (pl s)) HU1 HC1 HO1 HN1 Hx Hp) as G. cbn [s1 calls height now] in G.
-    fold s1. match type of G with NInv (fst ?t) => destruct t as [s2 o2] end. exact G.
-  - pose proof (NInv_spawn c s h (e_handle c (new_entry h) h) HC HN) as HN1.
-    pose proof (spawn_InvC c s h (e_handle c (new_entry h) h) HC) as HC1.
-    pose proof (spawn_InvO s h (e_handle c (new_entry h) h) HO) as HO1.
-    pose proof (spawn_InvU s h (e_handle c (new_entry h) h) HU He) as HU1.
-    unfold spawn in *. 
-    match goal with |- NInv (fst (match find_select 0 ?l with _ => _ end)) => destruct (find_select 0 l) as [[[i d] li]|] eqn:Hf end; [|exact HN1].
-    destruct (find_select_spec _ _ _ _ _ Hf) as (x & Hx & Hp & Hli & _). rewrite Nat.sub_0_r in Hx. subst li.
-    match type of HN1 with NInv ?s1 => pose proof (NInv_poll c s1 i x d (Some (e_handle c (new_entry h) h)) true (next_att (pl s)) HU1 HC1 HO1 HN1 Hx Hp) as G end.
-    cbn [calls height now] in G.
-    match type of G with NInv (fst ?t) => destruct t as [s2 o2] end. exact G.
+  destruct (find_select 0 (lcs (pl s))) as [[[i d] li]|] eqn:Hf; [|exact HN].
+  destruct (find_select_spec _ _ _ _ _ Hf) as (x & Hx & Hp & Hli & _). rewrite Nat.sub_0_r in Hx. subst li.
+  exact (NInv_poll c s i x d (entry_ (pl s)) sel (next_att (pl s)) HU HC HO HN Hx Hp).
 Qed.
 
 (* ---------- EvDeliver ---------- *)
@@ -1072,6 +1063,7 @@ Theorem step_NInv c s ev :
 Proof.
   intros HU HC HO HN Hwf. destruct ev.
   - apply NInv_htlc; assumption.
+  - apply NInv_pollev; assumption.
   - apply NInv_process; assumption.
   - apply NInv_deliver; assumption.
   - apply NInv_part; assumption.
